@@ -1,6 +1,6 @@
 #!/usr/bin/env python3
 """Prints the markdown table 'seeded change x catching check' from seeded/*/meta.json + detected.json."""
-import json, os, sys
+import json, os
 ROOT = os.path.dirname(os.path.dirname(os.path.abspath(__file__)))
 rows = []
 for n in sorted(os.listdir(os.path.join(ROOT, "seeded"))):
@@ -14,12 +14,14 @@ for n in sorted(os.listdir(os.path.join(ROOT, "seeded"))):
     if os.path.exists(p):
         det = json.load(open(p))
     summ = m.get("summary", "").replace("|", "/").replace("\n", " ")
-    if len(summ) > 230:
-        summ = summ[:227] + "..."
-    sigs = "; ".join(det.get("signatures", [])[:2]).replace("|", "/")
-    also = ", ".join(m.get("also_caught_by", []))
-    res = "caught" if det.get("detected") else ("MISSED" if det else "not run")
-    rows.append(f"| {n} | {m.get('property')} | {summ} | {det.get('check','')} {det.get('tier','')}: {res}{(' (also ' + also + ')') if also else ''} | `{sigs}` |")
-print("| seed | property | change | owning check | signature reported |")
-print("|---|---|---|---|---|")
+    if len(summ) > 200:
+        summ = summ[:197] + "..."
+    runs = det.get("runs") or ([det] if det.get("check") else [])
+    cells = []
+    for r in runs:
+        sig = "; ".join(r.get("signatures", [])[:2]).replace("|", "/")
+        cells.append(f"{r['check']} quick: {'caught' if r.get('detected') else 'silent (exit %s)' % r.get('exit')}" + (f" `{sig}`" if sig else ""))
+    rows.append(f"| {n} | {m.get('property')} | {summ} | {'<br>'.join(cells) if cells else 'not run'} |")
+print("| seed | property | change | result of the quick check(s) with the change applied |")
+print("|---|---|---|---|")
 print("\n".join(rows))
